@@ -1144,21 +1144,6 @@ void Run::opBuild(const Json& op) {
     if (touched)
       for (auto& o : c->outputs) lastTouch[o] = buildNo;
   }
-  for (const Cmd* c : order) {
-    if (c->tool != "shell") continue;
-    std::vector<std::string> nodes;
-    for (auto& i : c->inputs)
-      if (!desc.producer(i) && !isVirtualNode(i) && !isDirNode(i)) nodes.push_back(i);
-    if (recs.count(c->name))
-      for (auto& d : recs[c->name].discovered) nodes.push_back(d);
-    for (auto& n : nodes) {
-      FileState st = stateOf(n);
-      if (!nodeSeen.count(n) || nodeSeen[n] != st) {
-        nodeSeen[n] = st;
-        lastTouch[n] = buildNo;
-      }
-    }
-  }
   if (ok)
     for (const Cmd* c : order)
       if (c->tool == "shell" && recs.count(c->name)) recs[c->name].sawBuild = buildNo;
@@ -1214,6 +1199,22 @@ void Run::opBuild(const Json& op) {
       // result may still stand, and if nothing else changed it is legitimately up to date.  Either, until it runs again.
       if (bCancelIssued) softAfterFailure.insert(c->name);
       else recs[c->name].ok = false;
+    }
+  }
+  // (after the records: the discovered inputs of what ran for the first time in this build count too)
+  for (const Cmd* c : order) {
+    if (c->tool != "shell") continue;
+    std::vector<std::string> nodes;
+    for (auto& i : c->inputs)
+      if (!desc.producer(i) && !isVirtualNode(i) && !isDirNode(i)) nodes.push_back(i);
+    if (recs.count(c->name))
+      for (auto& d : recs[c->name].discovered) nodes.push_back(d);
+    for (auto& n : nodes) {
+      FileState st = stateOf(n);
+      if (!nodeSeen.count(n) || nodeSeen[n] != st) {
+        nodeSeen[n] = st;
+        lastTouch[n] = buildNo;
+      }
     }
   }
   // A command that finished around a cancellation may or may not have had its result recorded (the engine drops what it
